@@ -404,7 +404,7 @@ pub fn worker_k<K: Kind>(args: &[String]) -> i32 {
 }
 
 pub const BIG_PROPS: [&str; 13] = ["C01", "C02", "C03", "C04", "C05", "C06", "C09", "C10", "C11", "C12", "C14", "C15", "C16"];
-pub const TYPES_PROPS: [&str; 8] = ["C01", "C02", "C03", "C04", "C05", "C06", "C08", "C12"];
+pub const TYPES_PROPS: [&str; 9] = ["C01", "C02", "C03", "C04", "C05", "C06", "C08", "C11", "C12"];
 pub const SWEEP_PROPS: [&str; 8] = ["C01", "C02", "C03", "C04", "C05", "C06", "C08", "C11"];
 
 /// One worker of the small-scope sweep: cases index, index+of, ...
